@@ -374,6 +374,11 @@ func TestVerifC09RestartRevisionCache(t *testing.T) {
 	vs.Run(t, "C09", func(c *vs.Case) error { return vw.PropC09RestartBeforeRevisionCache(c, c09GateDriver{}) })
 }
 
+// The same restart with the child LIST held back: the hook must never be shown an incomplete set of children.
+func TestVerifC03RestartChildCache(t *testing.T) {
+	vs.Run(t, "C03", func(c *vs.Case) error { return vw.PropC03RestartBeforeChildCache(c, c09GateDriver{}) })
+}
+
 func TestVerifC12FixedExhaustive(t *testing.T) {
 	vs.RunExhaustive(t, "C12", 2_000_000, func(c *vs.Case) error { return vw.PropC12(c, compositeFactory, "composite", true) })
 }
